@@ -232,6 +232,17 @@ def check_fst(case, rec):
             if _use_real(sr, lin):
                 for y in ys:
                     rec.real(ob, f"({func})(y)", sr, call(comp, y), want[y][0], val, y=_s(y), **desc)
+                if func == "cfg @ fst":
+                    # the composed grammar is a grammar like any other: a SECOND operation on it (here: truncation, which builds its
+                    # length automaton from the result's alphabet) must see a well-formed one (epsilon is not a symbol of it)
+                    k = max(0, case["L"] - 1)
+                    st2, tr = call(lambda: comp.truncate_length(k))
+                    if st2 == "ok" and isinstance(tr, bridge.CFG):
+                        for y in ys:
+                            rec.real(OB_TRUNC, f"(cfg @ fst).truncate_length({k})(y)", sr, call(tr, y), want[y][0] if len(y) <= k else ops.zero, val, y=_s(y), **desc)
+                    else:
+                        rec.out["n"] += 1
+                        rec.viol(OB_TRUNC, f"(cfg @ fst).truncate_length({k})", "raised: " + str(tr).split(":")[0], sr, message=str(tr), **desc)
         if any(not ops.is_zero(w) for w, _ in want.values()):
             rec.out["keys"].append(sig("fst", case["name"], sr, "exact" if rhs_exact else "tolerance"))
         if sr == "Q" and "sample" not in rec.out and any(w != 0 for w, _ in want.values()) and case["name"].startswith(("palindrome", "catalan")):
